@@ -4,6 +4,7 @@ per output line (`{"r": …}` or `{"error": …}`).  Pure function of the line.
 -/
 import Rpft.Drv.Cell
 import Rpft.Drv.DataOps
+import Rpft.Drv.Index
 open Lean Rpft.Drv
 
 def dispatch (j : Json) : Except String Json := do
@@ -11,6 +12,7 @@ def dispatch (j : Json) : Except String Json := do
   let op ← opj.getStr?
   if op.startsWith "cell." || op.startsWith "str." then handleCell op j
   else if op.startsWith "dataops." then handleDataOps op j
+  else if op.startsWith "index." then handleIndex op j
   else throw s!"unknown op {op}"
 
 partial def loop (hin : IO.FS.Stream) (hout : IO.FS.Stream) : IO Unit := do
